@@ -54,7 +54,7 @@ def switchOfFeedback : Feedback → Switch
 def showNs : Ns → String | .html => "html" | .svg => "svg" | .mathml => "mathml"
 
 /-- one comparison run -/
-def compare (c : Cfg) (strict : Bool) (ts : List Token) : String :=
+def compare (c : Cfg) (strict : Bool) (ts : List Token) (checkCdata : Bool := true) : String :=
   let cfg := Gen.Tags.cfg
   let rec go (fuel : Nat) (k : Nat) (tags : Nat) (sim : Sim) (simCdata : Bool) (s : State) (tk : TkState) : List Token → String
     | [] => s!"ok n={tags}"
@@ -78,7 +78,7 @@ def compare (c : Cfg) (strict : Bool) (ts : List Token) : String :=
             if o.impossible || o.outOfFuel then s!"spec-stuck@{k}"
             else if simSw != o.sw then
               s!"div@{k} switch sim={showSwitch simSw} spec={showSwitch o.sw} mode={showMode s.mode} stack={showStack s}"
-            else if simCdata' != o.st.cdataAllowed then
+            else if checkCdata && simCdata' != o.st.cdataAllowed then
               s!"div@{k} cdata sim={simCdata'} spec={o.st.cdataAllowed} stack={showStack o.st}"
             else if sim'.currentNs != o.st.startTagNs then
               s!"div@{k} ns sim={showNs sim'.currentNs} spec={showNs o.st.startTagNs} stack={showStack o.st}"
@@ -94,5 +94,55 @@ def run (line : String) : String :=
       s!"{compare { scripting := sc } strict ts} | {compare { scripting := sc, legacySelect := true } strict ts}"
     | none => "bad-case"
   | _ => "bad-case"
+
+/-- lane `tbn` (Lean only): as `tbs` for the current `select` parsing, without the CDATA comparison (F28 shows in
+every integration point): tokenizer switch and start-tag namespace only -/
+def runN (line : String) : String :=
+  match (line.splitOn " ").filter (· ≠ "") with
+  | cfg :: mode :: toks =>
+    match parseCase (" ".intercalate (cfg :: toks)) with
+    | some (sc, ts) => compare { scripting := sc } (mode == "strict") ts false
+    | none => "bad-case"
+  | _ => "bad-case"
+
+end LolHtml.Lane.TbSim
+
+namespace LolHtml.Lane.TbSim
+open LolHtml LolHtml.Model LolHtml.Spec.TreeBuilder LolHtml.Lane.Tb
+
+/-- lane `tbi` (Lean only): empirical check of structural invariants on template-free cases -/
+def checkInv (line : String) : String :=
+  match parseCase line with
+  | none => "bad-case"
+  | some (sc, ts) =>
+    if ts.any (fun t => match t with | .start .template _ _ => true | _ => false) then "skip"
+    else
+      let c : Cfg := { scripting := sc }
+      let pre : List Mode := [.initial, .beforeHtml, .beforeHead, .inHead, .inHeadNoscript, .afterHead]
+      let fr : List Mode := [.inFrameset, .afterFrameset, .afterAfterFrameset]
+      let rec go (fuel : Nat) (k : Nat) (s : State) (tk : TkState) : List Token → String
+        | [] => "ok"
+        | t :: ts =>
+          match fuel with
+          | 0 => "fuel"
+          | fuel + 1 =>
+          if !passes tk t then go fuel (k + 1) s tk ts
+          else
+            let o := step c s t
+            let s' := o.st
+            let m := if s'.mode == .text || s'.mode == .inTableText then s'.origMode else s'.mode
+            let bad :=
+              if pre.contains m || fr.contains m then none
+              else
+                let r := s'.stack.reverse
+                let bodyOk := (r.getD 0 default).isHtml .html && (r.getD 1 default).isHtml .body
+                let st := if s'.mode == .text then s'.stack.tail else s'.stack
+                let rm := resetLoop c [] s'.headPtr.isNone st
+                let modeOk := rm == m || (rm == .inBody && (m == .afterBody || m == .afterAfterBody))
+                if !bodyOk then some "body" else if !modeOk then some s!"mode {showMode m} reset {showMode rm}" else none
+            match bad with
+            | some b => s!"viol@{k} {b} stack={showStack s'}"
+            | none => go fuel (k + 1) s' (nextTk tk t o.sw) ts
+      go (ts.length + 1) 0 .init .data ts
 
 end LolHtml.Lane.TbSim
